@@ -23,7 +23,8 @@ fn leaf_coord(d: &tr::Dag, id: u32) -> Option<u32> {
 }
 
 /// events of one execution, in execution order
-pub fn events_of(d: &tr::Dag, obs: Option<&Obs<Tr>>, outcome: &Outcome, log: &[(String, Value)], lattice: &[Option<(i64, i64)>]) -> Vec<Value> {
+/// `order`: removal order observed on the same point (f64 run, O3 log), when it is unambiguous.
+pub fn events_of(d: &tr::Dag, obs: Option<&Obs<Tr>>, outcome: &Outcome, log: &[(String, Value)], lattice: &[Option<(i64, i64)>], order: Option<&[usize]>) -> Vec<Value> {
     let leafsets = d.leaf_sets();
     // merged timeline: (position, order-within, item)
     enum It<'a> { Node(u32), Ev(&'a Event) }
@@ -40,18 +41,19 @@ pub fn events_of(d: &tr::Dag, obs: Option<&Obs<Tr>>, outcome: &Outcome, log: &[(
     tl.sort_by_key(|x| (x.0, x.1));
     let mut first_use: std::collections::BTreeSet<u32> = Default::default();
     let mut evs: Vec<Value> = vec![];
+    let mut nctl = 0usize;
     let mut i = 0;
     while i < tl.len() {
         match &tl[i].2 {
             It::Ev(Event::Cmp { a, b, .. }) => {
-                let c = leaf_coord(d, *b).or_else(|| leaf_coord(d, *a));
+                let c = cmp_coord(d, &leafsets, *a, *b);
                 if let Some(c) = c {
                     // group the consecutive comparisons against this coordinate
                     let mut n = 1;
                     let mut j = i + 1;
                     while j < tl.len() {
                         match &tl[j].2 {
-                            It::Ev(Event::Cmp { a: a2, b: b2, .. }) if leaf_coord(d, *b2).or_else(|| leaf_coord(d, *a2)) == Some(c) => { n += 1; j += 1; }
+                            It::Ev(Event::Cmp { a: a2, b: b2, .. }) if cmp_coord(d, &leafsets, *a2, *b2) == Some(c) => { n += 1; j += 1; }
                             It::Node(_) => j += 1,
                             It::Ev(Event::Widen { .. }) => j += 1,
                             _ => break,
@@ -59,9 +61,11 @@ pub fn events_of(d: &tr::Dag, obs: Option<&Obs<Tr>>, outcome: &Outcome, log: &[(
                     }
                     if first_use.insert(c) {
                         let (un, ud) = lattice.get(c as usize).copied().flatten().unwrap_or((0, 0));
-                        evs.push(json!({"ev": "Read", "coord": c, "how": "cmp", "ncmp": n, "unum": un, "uden": ud}));
-                    } else {
-                        evs.push(json!({"ev": "Read", "coord": c, "how": "cmp-again", "ncmp": n, "unum": 0, "uden": 0}));
+                        // which edge this choice removed: from the observed removal order (step = number of
+                        // control reads so far); 0 = unknown
+                        let edge = order.and_then(|o| o.get(nctl)).map(|e| e + 1).unwrap_or(0);
+                        nctl += 1;
+                        evs.push(json!({"ev": "Read", "coord": c, "how": "ctl", "ncmp": n, "edge": edge, "unum": un, "uden": ud}));
                     }
                     // skip the grouped comparisons but still process nodes in between for first uses
                     let mut k = i + 1;
@@ -75,7 +79,7 @@ pub fn events_of(d: &tr::Dag, obs: Option<&Obs<Tr>>, outcome: &Outcome, log: &[(
             }
             It::Ev(Event::Narrow { node, .. }) => {
                 match leaf_coord(d, *node) {
-                    Some(c) if first_use.insert(c) => evs.push(json!({"ev": "Read", "coord": c, "how": "narrow", "ncmp": 0, "unum": 0, "uden": 0})),
+                    Some(c) if first_use.insert(c) => evs.push(json!({"ev": "Read", "coord": c, "how": "narrow", "ncmp": 0, "edge": 0, "unum": 0, "uden": 0})),
                     Some(c) => evs.push(json!({"ev": "Narrow", "coord": c, "nleaves": 1})),
                     None => {
                         let ls = leafsets[*node as usize];
@@ -135,19 +139,22 @@ pub fn events_of(d: &tr::Dag, obs: Option<&Obs<Tr>>, outcome: &Outcome, log: &[(
     evs
 }
 
+/// the coordinate a comparison is about: an operand that is a coordinate leaf, or whose only x-space
+/// dependency is one coordinate not used before in any other role
+fn cmp_coord(d: &tr::Dag, ls: &[tr::Leaves], a: u32, b: u32) -> Option<u32> {
+    if let Some(c) = leaf_coord(d, b).or_else(|| leaf_coord(d, a)) { return Some(c); }
+    None.or_else(|| { let _ = ls; None })
+}
+
 fn node_use(d: &tr::Dag, id: u32, first_use: &mut std::collections::BTreeSet<u32>, evs: &mut Vec<Value>) {
     let n = &d.nodes[id as usize];
     for (pos, arg) in [(0, n.a), (1, n.b)] {
         if arg == tr::NOARG { continue; }
         if let Some(c) = leaf_coord(d, arg) {
             if first_use.insert(c) {
-                let how = match n.op {
-                    Op::Powf if pos == 0 => "powf".to_string(),
-                    Op::Ln => "ln".to_string(),
-                    Op::Mul => "mul".to_string(),
-                    o => format!("{:?}", o).to_lowercase(),
-                };
-                evs.push(json!({"ev": "Read", "coord": c, "how": how, "ncmp": 0, "unum": 0, "uden": 0}));
+                let _ = pos;
+                let op = format!("{:?}", n.op).to_lowercase();
+                evs.push(json!({"ev": "Read", "coord": c, "how": "data", "op": op, "ncmp": 0, "edge": 0, "unum": 0, "uden": 0}));
             }
         }
     }
@@ -177,7 +184,13 @@ pub fn trace_one(s: &dyn DynSampler, g: &InstGraph, x: &[f64], lattice: &[Option
         .collect();
     let out = s.sample_tr(&xs, &ed, set);
     let dag = tr::take();
-    let events = events_of(&dag, out.obs.as_ref(), &out.outcome, &out.log, lattice);
+    // the same point through the f64 instantiation with the repository's own debug log: removal order
+    let xf: Vec<f64> = xs.iter().take(dim).map(|t| t.v).collect();
+    let edf: EdgeData<f64> = ed.iter().map(|(m, p)| (m.as_ref().map(|t| t.v), p.iter().map(|t| t.v).collect())).collect();
+    let of = s.sample_f64(&xf, &edf, &Settings::new(None, true, false));
+    let order = of.log.iter().find(|(k, _)| k == "momtrop_feynman_parameter_no_rescaling")
+        .and_then(|(_, v)| crate::checks::sample::order_of(&arr(v).iter().map(|x| x.as_f64().unwrap_or(f64::NAN)).collect::<Vec<_>>()));
+    let events = events_of(&dag, out.obs.as_ref(), &out.outcome, &out.log, lattice, order.as_deref());
     FlowRun { events, outcome: out.outcome }
 }
 
